@@ -5,7 +5,7 @@ Import ListNotations.
 From TV Require Import C08.Base C08.BaseProofs C08.Model C08.Proofs.
 
 Lemma rproj_keep r : rproj true r = r.
-Proof. destruct r as [o e st|]; [destruct o|]; reflexivity. Qed.
+Proof. destruct r as [o e st sn|]; [destruct o|]; reflexivity. Qed.
 
 (* (REF) without decompression: exact equality, for every decompressor (it is never used) *)
 Theorem ref_plain {G : Type} (inflate : G -> bytes -> nat -> option (G * bytes * bytes))
@@ -20,6 +20,7 @@ Proof.
   change (concat segs) with (flat ([], segs)).
   apply (seg_refines_whole inflate gflush gnew c true (fun d => d_gzon d = false)).
   - intros d h0 Hi. unfold headers_received. rewrite Hd. exact Hi.
+  - intros d Hi. exact Hi.
   - intros d cs cs' Hi Hc. rewrite !(deliver_plain inflate c _ d Hi). rewrite Hc. reflexivity.
   - reflexivity.
 Qed.
@@ -106,9 +107,47 @@ Section Bound.
       + exact I.
   Qed.
 
+  (* the held-back request body is written only if the request asked for 100-continue *)
+  Definition SI (d : @dstate G) : Prop := d_sent d = true -> expect100 c = true.
+
+  Lemma gz_chunk_sent fuel : forall d data,
+    match gz_chunk inflate c fuel d data with
+    | DOk d' | DBad d' => d_sent d' = d_sent d
+    | DFuel => True
+    end.
+  Proof.
+    induction fuel as [|f IH]; intros d data; [destruct data; simpl; auto|].
+    destruct data as [|x data]; [simpl; auto|]. cbn [gz_chunk].
+    destruct (inflate (d_gz d) (x :: data) (Datatypes.S (chunk_pred c))) as [[[g' out] tail]|];
+      [|simpl; auto].
+    destruct out as [|y out]; [destruct tail; simpl; auto|].
+    destruct (max_body c <? d_gzsize d + N.of_nat (length (y :: out)))%N; [simpl; auto|].
+    match goal with |- context [gz_chunk inflate c f ?dd tail] =>
+      specialize (IH dd tail); destruct (gz_chunk inflate c f dd tail); auto;
+      rewrite IH; unfold inner_data; destruct (streaming c); reflexivity end.
+  Qed.
+  Lemma deliver_sent : forall cs d,
+    match deliver inflate c d cs with
+    | DOk d' | DBad d' => d_sent d' = d_sent d
+    | DFuel => True
+    end.
+  Proof.
+    induction cs as [|p r IH]; intros d; [simpl; auto|].
+    cbn [deliver]. unfold data_received. destruct (d_gzon d).
+    - match goal with |- context [gz_chunk inflate c ?f ?dd p] =>
+        pose proof (gz_chunk_sent f dd p) as GS; destruct (gz_chunk inflate c f dd p) as [d'|d'|] end;
+        auto.
+      specialize (IH d'). destruct (deliver inflate c d' r); auto; rewrite IH; exact GS.
+    - specialize (IH (inner_data c d p)).
+      assert (E : d_sent (inner_data c d p) = d_sent d)
+        by (unfold inner_data; destruct (streaming c); reflexivity).
+      destruct (deliver inflate c (inner_data c d p) r); auto; rewrite IH; exact E.
+  Qed.
+
   Definition res_ok (r : result) : Prop :=
     match r with
-    | Res o e st =>
+    | Res o e st sn =>
+        (sn = true -> expect100 c = true) /\
         (N.of_nat (length st) <= max_body c)%N /\
         match o with
         | OResp code _ _ body => (N.of_nat (length body) <= max_body c)%N /\ is_1xx code = false
@@ -117,18 +156,19 @@ Section Bound.
     | OutOfFuel => True
     end.
 
-  Lemma err_ok k e (d : @dstate G) : (delivered d <= max_body c)%N -> res_ok (Res (OErr k) e (d_streamed d)).
-  Proof. intros H. unfold delivered in H. simpl. split; [lia|exact I]. Qed.
+  Lemma err_ok k e (d : @dstate G) :
+    SI d -> (delivered d <= max_body c)%N -> res_ok (Res (OErr k) e (d_streamed d) (d_sent d)).
+  Proof. intros HS H. unfold delivered in H. simpl. split; [exact HS|]. split; [lia|exact I]. Qed.
 
   Lemma do_finish_ok d code reason h e :
-    (delivered d <= max_body c)%N -> is_1xx code = false ->
+    SI d -> (delivered d <= max_body c)%N -> is_1xx code = false ->
     res_ok (do_finish gflush c d code reason h e).
   Proof.
-    intros H H1. unfold do_finish.
+    intros HS H H1. unfold do_finish.
     destruct (d_gzon d).
     - destruct (gflush (d_gz d)) as [[g' ne] ateof].
-      destruct ne; [apply err_ok; exact H|].
-      destruct (d_gzrecv d && negb ateof); [apply err_ok; exact H|].
+      destruct ne; [apply (err_ok _ _ (with_gz d g' (d_gzsize d))); assumption|].
+      destruct (d_gzrecv d && negb ateof); [apply (err_ok _ _ (with_gz d g' (d_gzsize d))); assumption|].
       unfold delivered in H. simpl. destruct (streaming c); simpl; repeat split; auto; lia.
     - unfold delivered in H. simpl. destruct (streaming c); simpl; repeat split; auto; lia.
   Qed.
@@ -148,15 +188,18 @@ Section Bound.
   Qed.
 
   Lemma finish_body_ok d code reason h cs (b : bstat S) :
-    delivered d = 0%N -> d_gzsize d = 0%N -> is_1xx code = false ->
+    SI d -> delivered d = 0%N -> d_gzsize d = 0%N -> is_1xx code = false ->
     (d_gzon d = false -> (N.of_nat (length (concat cs)) <= max_body c)%N) ->
     res_ok (finish_body inflate gflush c d code reason h cs b).
   Proof.
-    intros H0 Hz H1 Hp. unfold finish_body.
+    intros HS H0 Hz H1 Hp. unfold finish_body.
     pose proof (deliver_bound d cs H0 Hz Hp) as B.
-    destruct (deliver inflate c d cs) as [d'|d'|]; [|apply err_ok; exact B|exact I].
-    destruct b; try exact I; try (apply err_ok; exact B).
-    apply do_finish_ok; assumption.
+    pose proof (deliver_sent cs d) as DSn.
+    destruct (deliver inflate c d cs) as [d'|d'|]; [| |exact I].
+    - assert (HS' : SI d') by (unfold SI; rewrite DSn; exact HS).
+      destruct b; try exact I; try (apply err_ok; assumption).
+      apply do_finish_ok; assumption.
+    - apply err_ok; [unfold SI; rewrite DSn; exact HS|exact B].
   Qed.
 
   Lemma read_chunked_len fuel : forall total s,
@@ -205,10 +248,10 @@ Section Bound.
   Proof. cbn [deliver]. destruct (data_received inflate c d p); reflexivity. Qed.
 
   Lemma read_body_ok s d code reason h :
-    delivered d = 0%N -> d_gzsize d = 0%N -> is_1xx code = false ->
+    SI d -> delivered d = 0%N -> d_gzsize d = 0%N -> is_1xx code = false ->
     res_ok (read_body ops inflate gflush c s d code reason h).
   Proof.
-    intros H0 Hz H1. unfold read_body.
+    intros HS H0 Hz H1. unfold read_body.
     destruct (body_plan (max_body c) code h) as [[[n| |] h']|] eqn:BP.
     - pose proof (body_plan_fixed_le _ _ _ _ BP) as Hn.
       pose proof (H_bodylen (chunk_pred c) n s) as HB.
@@ -218,37 +261,50 @@ Section Bound.
       destruct (read_chunked ops c (Datatypes.S (remaining ops s)) 0 s) as [cs b]. cbn [fst] in HL.
       apply finish_body_ok; auto. intros _. lia.
     - destruct (max_body c <? N.of_nat (length (rd_all ops s)))%N eqn:E.
-      + apply err_ok. lia.
+      + apply err_ok; [exact HS|lia].
       + apply N.ltb_ge in E. rewrite <- deliver_single.
         pose proof (deliver_bound d [rd_all ops s] H0 Hz) as B.
+        pose proof (deliver_sent [rd_all ops s] d) as DSn.
         cbn [concat] in B. rewrite app_nil_r in B. specialize (B (fun _ => E)).
-        destruct (deliver inflate c d [rd_all ops s]) as [d'|d'|];
-          [apply do_finish_ok; assumption|apply err_ok; exact B|exact I].
-    - apply err_ok. lia.
+        destruct (deliver inflate c d [rd_all ops s]) as [d'|d'|]; [| |exact I].
+        * apply do_finish_ok; try assumption. unfold SI; rewrite DSn; exact HS.
+        * apply err_ok; [unfold SI; rewrite DSn; exact HS|exact B].
+    - apply err_ok; [exact HS|lia].
   Qed.
 
   Lemma frame_ok fuel : forall s d,
-    delivered d = 0%N -> d_gzsize d = 0%N ->
+    SI d -> delivered d = 0%N -> d_gzsize d = 0%N ->
     res_ok (frame ops inflate gflush gnew c fuel s d).
   Proof.
-    induction fuel as [|f IH]; intros s d H0 Hz; [exact I|].
+    induction fuel as [|f IH]; intros s d HS H0 Hz; [exact I|].
     cbn [frame].
-    destruct (rd_regex ops (max_header c) s) as [hd s1| |]; try (apply err_ok; lia).
-    destruct (parse_resp_head hd) as [[[code reason] h0]|]; [|apply err_ok; lia].
+    destruct (rd_regex ops (max_header c) s) as [hd s1| |]; try (apply err_ok; [exact HS|lia]).
+    destruct (parse_resp_head hd) as [[[code reason] h0]|]; [|apply err_ok; [exact HS|lia]].
     assert (HR : delivered (fst (headers_received gnew c d h0)) = 0%N /\
-                 d_gzsize (fst (headers_received gnew c d h0)) = 0%N).
+                 d_gzsize (fst (headers_received gnew c d h0)) = 0%N /\
+                 d_sent (fst (headers_received gnew c d h0)) = d_sent d).
     { unfold headers_received. destruct (decompress c); [|auto].
       destruct (gz_headers h0) as [h on]. cbn [fst]. unfold delivered in *. auto. }
-    destruct (headers_received gnew c d h0) as [d1 h]. cbn [fst] in HR. destruct HR as [R0 Rz].
+    destruct (headers_received gnew c d h0) as [d1 h]. cbn [fst] in HR. destruct HR as (R0 & Rz & Rs).
+    assert (HS1 : SI d1) by (unfold SI; rewrite Rs; exact HS).
     destruct (is_1xx code) eqn:X.
-    - destruct (hmem h K_CL || hmem h K_TE); [apply err_ok; lia|]. apply IH; assumption.
+    - destruct (expect100 c && (code =? 100)%N) eqn:W.
+      + apply andb_true_iff in W as [W1 _].
+        destruct (d_sent d1) eqn:Sn; cbn [andb].
+        * simpl. unfold delivered in R0. repeat split; auto; lia.
+        * assert (HS2 : SI (set_sent d1)) by (intros _; exact W1).
+          destruct (hmem h K_CL || hmem h K_TE);
+            [apply (err_ok _ _ (set_sent d1)); [exact HS2|exact (eq_ind_r (fun x => (x <= max_body c)%N) (N.le_0_l _) R0)]|].
+          apply IH; assumption.
+      + cbn [andb]. destruct (hmem h K_CL || hmem h K_TE); [apply err_ok; [exact HS1|lia]|].
+        apply IH; assumption.
     - destruct (is_head c || (code =? 304)%N).
-      + apply do_finish_ok; [lia|exact X].
+      + apply do_finish_ok; [exact HS1|lia|exact X].
       + apply read_body_ok; assumption.
   Qed.
 
   Theorem fetch_ok g0 s : res_ok (fetch ops inflate gflush gnew c g0 s).
-  Proof. unfold fetch. apply frame_ok; reflexivity. Qed.
+  Proof. unfold fetch. apply frame_ok; [intros H; discriminate|reflexivity|reflexivity]. Qed.
 End Bound.
 
 Lemma w_bodylen cs n b : (N.of_nat (length (concat (fst (w_body cs n b)))) <= n)%N.
